@@ -193,12 +193,25 @@ func unitsToBytes(u []uint16) []byte {
 
 func TestPathConfinement(t *testing.T) {
 	const name = "confinement"
-	ev.Rule(name, "fixed scratch tree (efivarfs root with files, sub-directories, relative and absolute symlinks to directories and files inside and outside, a chroot-style absolute link, a link loop, a too-short and a header-only variable) next to an OUTSIDE directory and root-sibling files holding sentinels named <leaf>-<guid> for every leaf x GUID; variable names = UCS-2 strings from (70%) directed templates that walk to a leaf through each kind of route (plain, sub-directory, inside link, outside link, dot-dot, absolute) with optional random pieces spliced in, or (30%) free sequences over {names, '/', '..', '.', '-', backslash, NUL, BOM, lone and paired surrogates, 255-unit run}, with 0-2 NUL terminators and occasionally an odd trailing byte; GUID from a pool of 3; entry = EfiVarFSReader.ReadVariable directly or exel.Locate(RIMLocationVariable, EFI GUID || name). Oracle: no panic; the result is never the payload of a sentinel; every success equals contents[4:] of a regular file whose symlink-free path lies under the root. non-trivial = the name contains a separator or dot-dot or names a symlink; distinct = (name units, guid, entry)")
+	ev.Rule(name, "fixed scratch tree (efivarfs root with files, sub-directories, relative and absolute symlinks to directories and files inside and outside, a chroot-style absolute link, a link loop, a too-short and a header-only variable) next to an OUTSIDE directory and root-sibling files holding sentinels named <leaf>-<guid> for every leaf x GUID; variable names = UCS-2 strings from (70%) directed templates that walk to a leaf through each kind of route (plain, sub-directory, inside link, outside link, dot-dot, absolute) with optional random pieces spliced in, or (30%) free sequences over {names, '/', '..', '.', '-', backslash, NUL, BOM, lone and paired surrogates, 255-unit run}, with 0-2 NUL terminators and occasionally an odd trailing byte; GUID from a pool of 3; entry = EfiVarFSReader.ReadVariable directly or exel.Locate(RIMLocationVariable, EFI GUID || name); the reader root spelled plainly / with a trailing separator / with a trailing dot / through a symlink next to the root. Oracle: no panic; the result is never the payload of a sentinel; every success equals contents[4:] of a regular file whose symlink-free path lies under the root (the empty payload only for the header-only variable). non-trivial = the name contains a separator or dot-dot or names a symlink; distinct = (name units, guid, entry)")
 	env := newConfEnv(t)
 	if len(env.sentinel) < 2*len(confGUIDs)*len(confLeaves) || len(env.inside) < 9*len(confGUIDs) {
 		t.Fatalf("harness: scratch tree incomplete: %d inside, %d sentinels", len(env.inside), len(env.sentinel))
 	}
 	reader := exel.MakeEfiVarFSReader(env.root)
+	// The same mount point spelled differently: trailing separator, trailing dot, through a symlink
+	// next to it. What counts as "outside" is the same for all of them.
+	rootLink := filepath.Join(env.scratch, "rootlink")
+	if err := os.Symlink("root", rootLink); err != nil {
+		t.Fatalf("harness: %v", err)
+	}
+	rootForms := []string{"plain", "trailing-slash", "symlinked", "trailing-dot"}
+	readers := map[string]*exel.EfiVarFSReader{
+		"plain":          reader,
+		"trailing-slash": exel.MakeEfiVarFSReader(env.root + string(filepath.Separator)),
+		"trailing-dot":   exel.MakeEfiVarFSReader(env.root + string(filepath.Separator) + "."),
+		"symlinked":      exel.MakeEfiVarFSReader(rootLink),
+	}
 	// Outside the statement (it is about where a name resolves to, and Locate never passes a name
 	// shorter than a terminator), but worth writing down: the zero-length name.
 	if pan := safely(func() { reader.ReadVariable(confGUIDs[0], []byte{}) }); pan != nil {
@@ -239,6 +252,8 @@ func TestPathConfinement(t *testing.T) {
 				add(rapid.SampledFrom(confPieces).Draw(t, "spliced"))
 			}
 		}
+		rootForm := rapid.SampledFrom(rootForms).Draw(t, "rootForm")
+		reader := readers[rootForm]
 		entry := rapid.SampledFrom([]string{"direct", "direct", "locate"}).Draw(t, "entry")
 		terms := rapid.SampledFrom([]int{1, 1, 1, 0, 2}).Draw(t, "terminators")
 		if entry == "locate" && terms == 0 {
@@ -273,6 +288,10 @@ func TestPathConfinement(t *testing.T) {
 				return
 			}
 			p, ok := env.inside[string(got)]
+			if ok && len(got) == 0 && !strings.Contains(shown, "hdronly") {
+				// the empty payload belongs to the header-only variable and to nothing else
+				ok = false
+			}
 			if !ok {
 				ev.Violation(t, "C16/confinement/unknown-content", "ReadVariable(%s, [%s]) returned %q, which is not contents[4:] of any file under the root", g, shown, clip(got))
 				return
@@ -307,8 +326,9 @@ func TestPathConfinement(t *testing.T) {
 				nontrivial = true
 			}
 		}
-		ev.Case(name, nontrivial, fmt.Sprintf("%x|%s|%s", nameBytes, g, entry), class, func() any {
-			return map[string]any{"name": shown, "terminators": terms, "odd_byte": odd, "guid": g.String(), "entry": entry, "result": clip(got), "error": fmt.Sprint(err)}
+		ev.Class(name, "root:"+rootForm)
+		ev.Case(name, nontrivial, fmt.Sprintf("%x|%s|%s|%s", nameBytes, g, entry, rootForm), class, func() any {
+			return map[string]any{"root": rootForm, "name": shown, "terminators": terms, "odd_byte": odd, "guid": g.String(), "entry": entry, "result": clip(got), "error": fmt.Sprint(err)}
 		})
 	})
 }
